@@ -67,7 +67,8 @@ def one(base, k, src, combo):
     mode, fin, strict, no_save, out, no_cpp, verb = combo
     wd = os.path.join(base, 'w%d' % k)
     os.makedirs(wd)
-    fname = 'prog.c'
+    # the input file name varies too: the default output is output/<stem>.json, whatever the stem ends in
+    fname = ['prog.c', 'calc.c', 'a.b.c', 'x_c.c', 'c.c', 'mmm.c', 'noext'][(k // 5) % 7]
     with open(os.path.join(wd, fname), 'w') as f:
         f.write(src)
     flags = ['--mode', mode]
@@ -86,7 +87,7 @@ def one(base, k, src, combo):
     if verb:
         flags.append('--' + verb)
     rc, err = run_cli(wd, fname, flags)
-    expected = os.path.normpath(os.path.join(wd, out_rel)) if out else os.path.join(wd, 'output', 'prog.json')
+    expected = os.path.normpath(os.path.join(wd, out_rel)) if out else os.path.join(wd, 'output', os.path.splitext(os.path.basename(fname))[0] + '.json')
     files = []
     for root, _, fs in os.walk(wd):
         for fn in fs:
@@ -100,7 +101,7 @@ def one(base, k, src, combo):
             doc = 'unreadable'
     shutil.rmtree(wd)
     return {'rc': rc, 'err': err, 'files': sorted(files), 'doc': doc, 'expected': os.path.relpath(expected, wd), 'flags': flags,
-            'wd': wd, 'expected_abs': expected}
+            'wd': wd, 'expected_abs': expected, 'fname': fname}
 
 
 def run(ctx):
@@ -159,7 +160,7 @@ def run(ctx):
                     ctx.violation({'kind': 'unexpected-files'}, f"files written: {r['files']}, expected only {r['expected']}", inp)
                 # the model of the option plumbing predicts what is asked of the library and where it is saved
                 if ctx.drv is not None:
-                    m = ctx.drv.call('model.cli', argv=['prog.c'] + r['flags'])['ok']
+                    m = ctx.drv.call('model.cli', argv=[r['fname']] + r['flags'])['ok']
                     if 'raised' in m:
                         ctx.disagree('model.cli(raise)', {**inp, 'model': m})
                     else:
@@ -167,15 +168,15 @@ def run(ctx):
                                 or m['strict'] != strict or m['use_cpp'] != (not no_cpp):
                             ctx.disagree('model.cli', {**inp, 'model': m, 'expected_path': r['expected']})
                         mode, fin, strict = ('L' if m['loop_mode'] else 'F'), m['fin'], m['strict']
-                key = (fi, mode, fin, strict)
+                key = (fi, mode, fin, strict, r['fname'])
                 if key not in lib_cache:
-                    lp = os.path.join(libdir, 'prog.c')
+                    lp = os.path.join(libdir, r['fname'])
                     with open(lp, 'w') as f:
                         f.write(src)
                     cwd = os.getcwd()
                     os.chdir(libdir)
                     try:
-                        lib_cache[key] = library_result('prog.c', mode, fin, strict)
+                        lib_cache[key] = library_result(r['fname'], mode, fin, strict)
                     except Exception as e:
                         lib_cache[key] = {'raised': type(e).__name__}
                     finally:
